@@ -82,6 +82,9 @@ def rand_angle(rng):
         return tuple(float(a) for a in rng.choice(AXIS_ANGLES)), 'axis-aligned'
     if k < 0.65:
         return tuple(float(rng.randrange(0, 360, 15)) for _ in range(3)), 'multiple-of-15'
+    if k < 0.69:
+        # around the vertical, where Matrix.to_angle switches to its gimbal-lock branch (horizontal part <= 0.001)
+        return (rng.choice([89.95, 89.99, 90.02, 270.04, 90.0, 269.9999]), rng.uniform(0, 360), rng.uniform(0, 360)), 'near-vertical'
     return tuple(rng.uniform(0, 360) for _ in range(3)), 'random'
 
 
